@@ -32,8 +32,10 @@ def grids() -> Dict[str, Any]:
 class World:
     """The real objects of one history."""
 
-    def __init__(self, kind: str, holder: str, initver: int = 0, members: str = "ddf"):
+    def __init__(self, kind: str, holder: str, initver: int = 0, members: str = "ddf", ddf_stride: int = 1, use_fit: bool = False):
         self.kind = kind
+        self.ddf_stride = ddf_stride  # DDF / SVF parameters on a coarser grid than the transform's (then the displacement buffer is not a view of them)
+        self.use_fit = use_fit        # bind the specification's "set data" action to fit(flow) instead of data_(tensor)
         self.members = members  # member type of the composite kind SEQ: predicted displacement fields, or predicted LINEAR transforms
         self.grids = grids()
         self.objs: Dict[int, Any] = {}
@@ -74,6 +76,8 @@ class World:
         kw = {}
         if kind in ("FFD", "SVFFD"):
             kw["stride"] = 4
+        elif kind in ("DDF", "SVF") and self.ddf_stride > 1:
+            kw["stride"] = self.ddf_stride
         if holder == "param":
             return self.cls()(G, params=True, **kw)
         if holder == "tensor":
@@ -135,7 +139,16 @@ class World:
         elif a == "disp":
             return self.observe_disp(t)
         elif a == "data_":
-            t.data_(self.params_for(t, arg))
+            if self.use_fit and self.kind == "DDF":
+                from deepali.core.grid import Axes
+                from deepali.data.flow import FlowFields
+
+                g_ = t.grid()
+                w_ = torch.zeros(1, g_.ndim, *g_.shape)
+                w_[0, 0] = arg * DELTA
+                t.fit(FlowFields(w_, g_, Axes.WORLD))
+            else:
+                t.data_(self.params_for(t, arg))
         elif a == "inplace":
             with torch.no_grad():
                 t.params.copy_(self.params_for(t, arg))
